@@ -30,16 +30,19 @@ def theorems_of(module: str, only: list[str] | None = None) -> list[str]:
     return [prefix + n for n in names if only is None or n in only]
 
 
-ANALYSER_PARTS = {"C04": "C04a", "C05": "C05a", "C06": "C06a", "C07": "C07a", "C15": "C15a", "C13": "C13a", "C03": "C03a", "C02": "C02a"}
-"""second theorem file of a property: the analyser half (mypy nodes -> API model)"""
+ANALYSER_PARTS = {"C04": ["C04a"], "C05": ["C05a"], "C06": ["C06a"], "C07": ["C07a"], "C15": ["C15a", "C15b"], "C13": ["C13a"],
+                  "C03": ["C03a"], "C02": ["C02a"], "C01": ["C01b"], "C08": ["C08b"], "C10": ["C10b"], "C12": ["C12b"],
+                  "C18": ["C18b"]}
+"""further theorem files of a property: `a` = the analyser half (mypy nodes -> API model), `b` = the whole-tool part
+(Model/Pipeline.lean: discovery, alias table, walk, API JSON text, generator, writes)"""
 
 
 def spec(prop: str, stages, extra_modules=(), extra_theorems=(), only=None):
     mods = [f"StubGen.Theorems.{prop}", *extra_modules]
     thms = theorems_of(f"StubGen.Theorems.{prop}", only) + list(extra_theorems)
-    if prop in ANALYSER_PARTS:
-        mods.append(f"StubGen.Theorems.{ANALYSER_PARTS[prop]}")
-        thms += theorems_of(f"StubGen.Theorems.{ANALYSER_PARTS[prop]}")
+    for part in ANALYSER_PARTS.get(prop, []):
+        mods.append(f"StubGen.Theorems.{part}")
+        thms += theorems_of(f"StubGen.Theorems.{part}")
     return {"modules": mods, "theorems": thms, "stages": [stage_corpus.run, *stages]}
 
 
